@@ -2152,6 +2152,66 @@ def check_scratch_reset(ck, facts, f, inst, inl):
 
 
 # -------------------------------------------------------------------------------------------------
+# operator data handed to the constructor is captured by reference (or refreshed by init_numeric)
+# -------------------------------------------------------------------------------------------------
+
+def check_capture(ck, S, ctors, fl, inst):
+    """E8.captured-by-reference: a member that a constructor initialises from a constructor parameter of reference-to-object
+    type (system matrix, diagonal vector, filter) denotes the caller's object itself (the initialiser is the parameter: a
+    reference member), so that every later change of that object is seen by the next apply().  A member initialised with a
+    value *computed* from the parameter (clone, convert, copy) is a snapshot; that is admissible only if init_numeric()
+    rewrites the member on every path (then the documented re-initialisation refreshes it)."""
+    rule = "E8.captured-by-reference"
+    seen = {}
+    for c in ctors:
+        cv = FnView(c)
+        pref = {p_["d"]: p_ for p_ in c.params if "&" in c.type(p_["t"]) and not re.search(r"\b(String|PropertyMap|basic_string)\b", c.type(p_["t"]))}
+        for ini in c.d.get("inits") or []:
+            mem = ini.get("member")
+            init = ini.get("init")
+            if not mem or init is None:
+                continue
+            refs = [x for x in walk(init) if x.get("k") == "Ref" and x.get("d") in pref]
+            if not refs:
+                continue
+            direct = strip(init).get("k") == "Ref" and strip(init).get("d") in pref
+            st = seen.setdefault(mem, {"direct": True, "where": ini.get("l"), "param": refs[0]["n"], "how": render(init)[:70], "file": c.file})
+            if not direct:
+                st["direct"] = False
+                st["where"] = ini.get("l")
+                st["how"] = render(init)[:70]
+    for mem, st in sorted(seen.items()):
+        key = "%s/%s" % (inst, mem)
+        if st["direct"]:
+            ck.ob(rule, key, True, "%s is bound to the constructor argument `%s` itself" % (mem, st["param"]), st["file"], st["where"])
+            continue
+        # a snapshot: does init_numeric() rewrite it on every path?
+        ok = False
+        if "init_numeric" in fl:
+            nf = fl["init_numeric"]
+            nv = S.view(nf)
+            writes = set()
+            for e in stmts_of(nv):
+                n = nv.byid.get(e)
+                if n is None:
+                    continue
+                tgt = None
+                if n.get("k") == "Assign" and n.get("op") == "=":
+                    tgt = n["lhs"]
+                elif n.get("k") == "OpCall" and n.get("op") == "=" and len(n.get("a", [])) == 2:
+                    tgt = n["a"][0]
+                elif n.get("k") == "MCall" and n.get("n") in ("clone", "convert", "copy") and not n.get("cconst") and n.get("a"):
+                    tgt = n.get("obj")
+                if tgt is not None and pcsym.this_field(nv.value(tgt)) == mem:
+                    writes.add(e)
+            ok = bool(writes) and not nv.flow_from(None, stop=writes | empty_shortcut_returns(nv))[1]
+        ck.ob(rule, key, ok,
+              "%s is a snapshot of the constructor argument `%s` (%s) that init_numeric() rewrites on every path" % (mem, st["param"], st["how"]) if ok else
+              "%s is initialised with `%s`, a snapshot of the constructor argument `%s`, and no init_numeric() rewrites it: when the owner replaces that object's data (assignment, clone, convert, re-creation) "
+              "the preconditioner keeps applying the old values, also after done/init" % (mem, st["how"], st["param"]), st["file"], st["where"])
+
+
+# -------------------------------------------------------------------------------------------------
 # wrappers
 # -------------------------------------------------------------------------------------------------
 
@@ -2241,11 +2301,45 @@ def check_factories(ck):
             ck.ob(rule, tag, True, "type-checks", None, None)
 
 
+def check_factory_forwarding(ck):
+    """E1.factory-forwards: every documented new_*_precond factory uses each of its parameters and hands it to the constructor
+    parameter of its own name"""
+    rule = "E1.factory-forwards"
+    files = featlib.repo_path(SOLVER) + "(" + "|".join(PC_FILES) + ")"
+    facts = featlib.extract("tu/c08_factories.cpp", files=files)
+    ck.tu(facts)
+    inl = norm_c08.Inliner(facts)
+    ctors_all = [g for g in facts.functions if g.tk != "pattern" and g.d.get("ctor")]
+    facs = [f for f in facts.functions if f.tk != "pattern" and f.name.startswith("new_") and f.name.endswith("_precond") and not f.cls]
+    if not facs:
+        ck.incomplete(rule, "no instantiated new_*_precond factory found in tu/c08_factories.cpp")
+    seen = {}
+    for f in sorted(facs, key=lambda f: (f.name, len(f.params), f.line)):
+        m = re.match(r"std::shared_ptr<(?:FEAT::Solver::)?(\w+)<", f.type(f.d.get("ret")) or "")
+        key = "%s/%s" % (f.name, ",".join(p_["n"] for p_ in f.params))
+        if key in seen:
+            continue
+        seen[key] = True
+        if not m:
+            ck.incomplete(rule, "%s: product type %s not recognised" % (key, f.type(f.d.get("ret"))))
+            continue
+        ctors = [g for g in ctors_all if tmpl(g.cls) == m.group(1)]
+        view = FnView(inl.inline(f))
+        problems, desc = norm_c08.factory_forwarding(view, ctors)
+        unknown = [t for k, t in problems if k == "unknown"]
+        definite = [t for k, t in problems if k != "unknown"]
+        if unknown and not definite:
+            ck.incomplete(rule, "%s: %s" % (key, unknown[0]))
+            continue
+        ck.ob(rule, key, not definite, "; ".join(definite) if definite else "every parameter is forwarded: %s" % desc, f.file, f.line)
+
+
 # -------------------------------------------------------------------------------------------------
 
 def run(tier):
     ck = Check("C08", tier)
     ck.rule("E0.factory-instantiable", "every documented new_*_precond factory overload (direct and PropertyMap based) can be instantiated for CSR/BCSR double matrices; an overload that does not compile cannot apply any operator", 14)
+    ck.rule("E1.factory-forwards", "every documented new_*_precond factory uses each of its parameters (matrix, filter, omega, fill level, degree, section) and hands it, positionally, to the constructor parameter of its own name: a dropped argument is silently replaced by the constructor's default (e.g. omega = 1), two same-typed arguments in exchanged slots configure the wrong quantity; breaks for every non-default value of the dropped / misplaced parameter", 14)
     ck.rule("E2.sweep-triangular", "SOR/SSOR row sweeps: forward loop runs over row_ptr[i].. while col_ind[k] < i, backward over ..row_ptr[i+1]-1 while col_ind[k] > i, accumulates val[k]*out[col_ind[k]] (output read only at rows already updated in this sweep), divides by val[] at the stopping position (the diagonal), writes out[i] once; breaks for every matrix with off-diagonal entries (e.g. '>=' adds the diagonal term and runs past it)", 6)
     ck.rule("E6.sweep-form", "row update of each sweep as an algebraic normal form: SOR out_i = w D^-1 (b_i - S), SSOR forward out_i = D^-1 (b_i - w S), backward out_i -= w D^-1 S (block versions with the inverse applied from the left); SOR has one forward sweep, SSOR forward then backward; breaks for every omega != 1", 10)
     ck.rule("E6.omega-scale", "the sweep result is scaled by omega*(2-omega) exactly once in SSOR and not at all in SOR; breaks for every omega != 1", 4)
@@ -2261,6 +2355,7 @@ def run(tier):
     ck.rule("E4.ilu-level-fold", "ILU(p) level of fill lev(i,k) = min_j lev(i,j) + lev(j,k) + 1: _insert folds a duplicate insertion with MIN on every path where the entry exists (neither keep-first nor overwrite) and stores (col, level) for a new entry; factorize_symbolic passes lev(L_ij) + lev(U_jk) + 1 of the two merged entries with the column of the same U entry, inserts iff level <= p, and starts the pattern of A at level 0; breaks for p >= 2 on patterns where an entry is reached through two paths of different level (pattern too small: LU does not match A on the level-p pattern)", 7)
     ck.rule("E3.merge-cursor", "numeric ILU factorisation (scalar and blocked): every cursor into a sorted column-index row (k over U_j, pl over L_i, pu over U_i) advances either as the increment of a loop over / skipping entries, or in straight code only under a successful match col_idx[cursor] == wanted column; breaks for structurally unsymmetric patterns (U_j has an entry right of column i but none at i: that entry is skipped and its Schur update lost); a cursor that skips up to a target taken from another traversal is (re)positioned inside the loop in which that traversal restarts (breaks for patterns with triangles / ILU(p>0)); a cursor positioned at row_ptr_X[r] is bounded by row_ptr_X[r+1] of the same row pointer array in every test (a hoisted row end taken from the wrong row / factor silently empties or overruns the row segment)", 24)
     ck.rule("E8.partial-fill-reinit", "a vector member that apply() reads and that a function reached from init_numeric() fills only partially (a pointer into it is handed to a gather routine all of whose stores are control-dependent on a match test) is re-initialised over its whole extent (memset / std::fill / assign / full loop over size()) on every path before, in that function or in init_numeric before the call; breaks on every second init_numeric() on one object (Vanka local matrices: the zero blocks hold the previous inverse)", 4)
+    ck.rule("E8.captured-by-reference", "every member of a preconditioner that a constructor initialises from a constructor parameter of reference-to-object type (system matrix, diagonal / scaling vector, filter) is bound to that argument itself (a reference member), so that the next apply() / init_numeric() sees the caller's current object; a member initialised with a value computed from the argument (clone in any mode, convert, copy) is a snapshot and admissible only if init_numeric() rewrites it on every path; breaks when the owner replaces the object's data between two applications (assignment of a recomputed vector, clone, convert): the shallow copy keeps the old array alive", 28)
     ck.rule("E8.scratch-reset", "AmaVanka::init_numeric: the local-matrix work array, which is shared by all macros and which the gather routine fills at the structural non-zeros only, is in its zeroed state at every gather: zero-initialised where it is declared and re-zeroed on every path from any other write to the next gather — including the paths that leave the macro loop body early (`continue`); breaks with skip_singular for every macro that follows a singular one and whose local matrix has structural zeros (assembled from the inf/NaN left by the failed inversion)", 2)
     ck.rule("E8.symbolic-structure-only", "init_symbolic() (transitively) does not read matrix values (val, extract_diag, apply)", 11)
     ck.rule("E5.operator-form", "apply() evaluated symbolically as a linear operator equals the documented one: Jacobi w D^-1 (omega once), Scale w, Diagonal diag, Matrix M, Polynomial start value M~^-1 def, recurrence x <- (I - M~^-1 A) x + M~^-1 def, _m iterations; breaks for omega != 1 / every input", 9)
@@ -2337,6 +2432,7 @@ def run(tier):
         if kind in ("jacobi", "polynomial", "scale", "diagonal", "matrix"):
             check_operator_form(ck, fl, inst, kind)
         check_numeric(ck, S, fl, inst, kind)
+        check_capture(ck, S, [g for g in facts.functions if g.tk != "pattern" and g.cls == cls and g.d.get("ctor")], fl, inst)
     for cls in sorted(classes):
         t = tmpl(cls)
         if t in ("ILUCoreScalar", "ILUCoreBlocked"):
@@ -2363,6 +2459,7 @@ def run(tier):
     for k in set(IMPL.values()) - seen_kinds:
         ck.incomplete("E7.filter-follows", "no instantiation of the %s preconditioner found" % k)
     check_factories(ck)
+    check_factory_forwarding(ck)
     # Vanka: local matrices gathered into a dense array
     vfacts = featlib.extract("tu/c08_vanka.cpp", files=featlib.repo_path(SOLVER) + "vanka.hpp")
     ck.tu(vfacts)
